@@ -332,8 +332,8 @@ def compare_message(t: dict, o: dict, carrier: str) -> list[tuple[str, str, str]
     for k in ("plain", "html"):
         got, want = _body(o[k]), _body(t[k])
         parts = t[k + "_parts"]
-        # the mailbox writer's own '>' may be kept (documented): each admitted reading in each of the writer's escape styles
-        styles = [None] + (list(G.ESCAPE_STYLES) if carrier == "mbox" else [])
+        # the mailbox writer's own '>' may be kept (documented): the text as sent, or the form this mailbox's writer stored
+        styles = [None] + ([t["mbox_escape"]] if carrier == "mbox" and t.get("mbox_escape") else [])
         ok = False
         for st in styles:
             ps = [_body(p if st is None else G.escape_text(p, st)) for p in parts]
@@ -396,7 +396,7 @@ def compare_message(t: dict, o: dict, carrier: str) -> list[tuple[str, str, str]
                 gb = core.unb64(g["head"])
                 if textual and g["sha_eol"] == core.sha(_eol(w["data"])):
                     pass                  # line terminator of a 7bit/8bit text part is transport
-                elif carrier == "mbox" and w["cte"] in ("7bit", "8bit", "quoted-printable") and g["sha_eol"] in [core.sha(_eol(_mboxrd_escaped(w["data"], st))) for st in G.ESCAPE_STYLES]:
+                elif carrier == "mbox" and w["cte"] in ("7bit", "8bit", "quoted-printable") and t.get("mbox_escape") and g["sha_eol"] == core.sha(_eol(_mboxrd_escaped(w["data"], t["mbox_escape"]))):
                     escaped_atts = True   # as for bodies: the '>' the harness's own mboxrd writer put before From lines may be kept (documented)
                 elif carrier == "mbox" and w["kind"] == "eml" and g["sha_eol"] != core.sha(_eol(_blank_after_colon(w["data"]))):
                     # not the one known re-serialisation ("Name:" CRLF SP value -> "Name: " CRLF SP value): other bytes than the attached message's
@@ -456,7 +456,7 @@ def compare_carriers(t: dict, e: dict, m: dict) -> list[tuple[str, str, str]]:
             continue                       # each side is one of the admitted readings of the same wire form
         if k in ("plain", "html"):
             a, b = _body(a), _body(b)
-            if len(t[k + "_parts"]) > 1 or any(a != b and _body(G.escape_text(a, st)) == b for st in G.ESCAPE_STYLES):
+            if len(t[k + "_parts"]) > 1 or (a != b and t.get("mbox_escape") and _body(G.escape_text(a, t["mbox_escape"])) == b):
                 continue                   # (several inline parts: "the first" and "all of them" are both admitted readings)
         if a != b:
             d.append((f"body-{k}" if k in ("plain", "html") else k.replace("_", "-"), "eml-and-mbox-disagree", f"eml {a!r:.200} mbox {b!r:.200}"))
@@ -552,7 +552,7 @@ def build_case(rng, tok, fx, n_msgs: int, risky: str | None, cid: int, stats=Non
         s["features"] = sorted(set(s["features"]) | {"risky:" + f for f in s["auto_risky"]})
     eol = rng.choice([b"\n", b"\n", b"\r\n"])
     mb = {"eol": "CRLF" if eol == b"\r\n" else "LF", "blank_lines": rng.choice([1, 1, 1, 2]), "final_blank": rng.random() < 0.8,
-          "escape": rng.choice(["mboxrd", "mboxrd", "lookalikes-only"])}
+          "escape": rng.choice(G.ESCAPE_STYLES)}
     return {"cid": cid, "specs": specs, "mbox_opts": mb, "risky": risky}
 
 
@@ -609,14 +609,16 @@ def materialise(case: dict) -> dict:
                 items.append({"kind": "eml", "b64": core.b64(tr), "path": f"c16-{case['cid']}-{i}-twin.eml",
                               "truth_atts": [[{"filename": a["filename"], "ctype": a["ctype"], "sha": a["sha"], "ext": a["ext"]} for a in tt["atts"]]]})
                 index.append(("eml-twin", i, tw))
-    raw_from = year_inside = 0
+    raw_from = year_inside = own_quote = 0
+    for raw in raws:                                     # ">From " lines of the sender's own that this mailbox stores as they are
+        own_quote += sum(1 for ln in raw.replace(b"\r\n", b"\n").split(b"\n") if re.match(rb">+From ", ln) and not G.needs_escape(ln, mbo.get("escape", "mboxrd")))
     if mbo.get("escape") == "lookalikes-only":
         for raw in raws:
             for ln in raw.replace(b"\r\n", b"\n").split(b"\n"):
                 if ln.startswith(b"From ") and not G.needs_escape(ln, "lookalikes-only"):
                     raw_from += 1
                     year_inside += bool(re.search(rb"\d{4}", ln))
-    return {"items": items, "blobs": blobs, "index": index, "escaped": escaped, "mbox_len": len(mbox), "raw_from": raw_from, "year_inside": year_inside}
+    return {"items": items, "blobs": blobs, "index": index, "escaped": escaped, "mbox_len": len(mbox), "raw_from": raw_from, "year_inside": year_inside, "own_quote": own_quote}
 
 
 def twin_of(spec: dict):
@@ -735,6 +737,9 @@ def main(run, only_cases=None):
     run.require("mbox_supported_attachment_extractions_compared", c.get("mbox_supported_attachment_extractions_compared", 0), run.n(200, 3000))
     run.require("messages_with_several_inline_text_parts_of_one_subtype", c.get("messages_with_several_inline_text_parts_of_one_subtype", 0), run.n(60, 900))
     run.require("mailboxes_escaping_lookalikes_only", c.get("mailbox_escape_lookalikes-only", 0), run.n(60, 900))
+    run.require("senders_own_quoted_from_lines_stored_as_they_are", c.get("senders_own_quoted_from_lines_stored_as_they_are", 0), run.n(100, 1500))
+    run.require("mailboxes_written_mboxo", c.get("mailbox_escape_mboxo", 0), run.n(60, 900))
+    run.require("mailboxes_written_mboxrd", c.get("mailbox_escape_mboxrd", 0), run.n(60, 900))
     run.require("unescaped_non_separator_from_lines_in_mailboxes", c.get("unescaped_non_separator_from_lines_in_mailboxes", 0), run.n(60, 900))
     run.require("unescaped_from_lines_with_a_year_inside", c.get("unescaped_from_lines_with_a_year_inside", 0), run.n(15, 200))
     run.require("messages_with_rfc2047_attachment_names", c.get("messages_with_name_rfc2047_attachment_names", 0), run.n(80, 1200))
@@ -773,8 +778,9 @@ def judge_case(run, case, m, obs):
     run.count("mailbox_escape_" + case["mbox_opts"].get("escape", "mboxrd"))
     run.count("unescaped_non_separator_from_lines_in_mailboxes", m.get("raw_from", 0))
     run.count("unescaped_from_lines_with_a_year_inside", m.get("year_inside", 0))
+    run.count("senders_own_quoted_from_lines_stored_as_they_are", m.get("own_quote", 0))
     items = obs["items"]
-    truths = [truth_of(s) for s in specs]
+    truths = [dict(truth_of(s), mbox_escape=case["mbox_opts"].get("escape", "mboxrd")) for s in specs]
     eml_obs = {}
     diffs = []                                   # (carrier, msg index, component, symptom, detail)
     twin_dirty = {}                              # msg index -> bool (eml twin), "mbox" -> bool
@@ -815,7 +821,7 @@ def judge_case(run, case, m, obs):
                 bad.append(("boundaries-or-raise", repr(it["error"]) + f" n={len(it['results'])}"))
             else:
                 for i, r in enumerate(it["results"]):
-                    for comp, sym, det in compare_message(truth_of(tspecs[i]), r, "mbox"):
+                    for comp, sym, det in compare_message(dict(truth_of(tspecs[i]), mbox_escape=case["mbox_opts"].get("escape", "mboxrd")), r, "mbox"):
                         bad.append((f"{comp}-{sym}", det))
             twin_dirty["mbox"] = bad
             run.count("control_twins_run")
